@@ -52,6 +52,11 @@ pub fn next_deadline_ns() -> Option<u64> {
     super::timer::next_deadline_ns()
 }
 
+/// Earliest deadline (ns) strictly after `now_ns()` of any live virtual timer, if any.
+pub fn next_deadline_after_now_ns() -> Option<u64> {
+    super::timer::next_deadline_after_ns(now_ns())
+}
+
 /// Advance the virtual clock to `to_ns` (monotonic) and let timers that are due raise
 /// their readiness.
 pub fn advance_to(to_ns: u64) {
